@@ -250,7 +250,8 @@ func applyIfExistsConfig(t rel.Tuple, dir string, fs afero.Fs, dryRun bool) (err
 			return err
 		}
 		if dryRun {
-			return nil
+			// validate the replacement against the empty tree the real pass will write into
+			return applyFilesFields(t, dir, afero.NewMemMapFs(), dryRun)
 		}
 		if err := fs.RemoveAll(dir); err != nil {
 			return err
